@@ -1,9 +1,122 @@
-"""C10 part B placeholder (filled in later in this round)"""
+"""C10 part B: data-race freedom of the work-shared loops, from clang's -fopenmp IR.
+
+The harnesses of C05 / C11 / C20 / C18 (which drive the real wrappers or the C entry points on small symbolic inputs) are run
+once more with the interpreter in *footprint mode* (vf/llsym/omp.py): every parallel region is executed by NVT virtual threads,
+virtual thread k receiving exactly iteration k of every work-shared loop, and all loads/stores are logged per barrier phase.
+Any two distinct iterations can be concurrent under some schedule and team size, so "no byte is touched by two virtual threads
+in one phase with a write, outside critical/reduction sections" is exactly race freedom for all schedules at these sizes; it
+also shows that the result does not depend on which thread runs which iteration (no thread-indexed state except what part A
+covers).  The obligations of the reused harness (value/gradient/adjoint identities) are decided as before, now on the OpenMP
+lowering of the code."""
+from ..run import Task
+from . import common
+
+NVT = 8
+sym_mods = common.sym_mods
+
+
+def _wrap(h):
+    def run(env, **cfg):
+        from ..llsym import bridge, omp
+        if not env.sym:
+            return h(env, **cfg)
+        omp.reset()
+        bridge.OMP_NVT = NVT
+        try:
+            h(env, **cfg)
+        finally:
+            bridge.OMP_NVT = None
+        regions = list(omp.REGIONS)
+        env.check("parallel_regions_reached", len(regions) > 0, "no __kmpc_fork_call was executed")
+        loops = [r for r in regions if r[2] > 0]
+        env.check("work_shared_loops_reached", len(loops) > 0 or not regions, str(regions))
+        short = [r for r in loops if r[2] > NVT]
+        env.check("every_iteration_has_its_own_virtual_thread", not short, "loops longer than %d virtual threads: %s" % (NVT, short))
+        by = {}
+        for r in omp.RACES:
+            by.setdefault(r["region"], []).append(r)
+        for fn in sorted({r[0] for r in regions}):
+            rs = by.get(fn, [])
+            env.check("no_data_race/%s" % fn.strip("."), not rs, "; ".join(x["detail"] for x in rs[:3]))
+        env.tags.append("omp regions: %s" % sorted({(r[0], r[2]) for r in regions}))
+        if omp.SILENT:
+            env.tags.append("silent stores to shared locations (every thread rewrites the value already there; result-neutral): %s" % sorted(set(omp.SILENT)))
+    run.__name__ = "omp_" + h.__name__
+    return run
+
+
+def _make():
+    from . import c02, c05, c11, c20, c18
+    return {
+        "cider_coefs_gto_gq": (_wrap(c02.h_gto), dict(spec="se_erf_rinv", order="gq"), "numint"),
+        "cider_coefs_gto_qg": (_wrap(c02.h_gto), dict(spec="se_a2r4", order="qg"), "numint"),
+        "cider_coefs_vk1_gq": (_wrap(c02.h_vk1), dict(order="gq"), "dft"),
+        "cider_coefs_vk1_qg": (_wrap(c02.h_vk1), dict(order="qg"), "dft"),
+        "cider_coefs_spline_gq": (_wrap(c02.h_spline), dict(order="gq"), "dft"),
+        "cider_coefs_spline_qg": (_wrap(c02.h_spline), dict(order="qg"), "dft"),
+        "cider_ind_etb": (_wrap(c02.h_ind), dict(formula="etb"), "dft"),
+        "cider_ind_zexp": (_wrap(c02.h_ind), dict(formula="zexp"), "dft"),
+        "smooth_cider_exponents": (_wrap(c02.h_smooth), {}, "dft"),
+        "evaluate_se_kernel": (_wrap(c11.h_rbf), dict(kind="const*full", n=2, nctrl=2), "kernels"),
+        "evaluate_se_kernel_antisym": (_wrap(c11.h_antisym), dict(n=2), "kernels"),
+        "evaluate_se_kernel_spin": (_wrap(c11.h_spin), dict(n=2), "kernels"),
+        "evaluate_se_kernel_spin_v2": (_wrap(c11.h_spin_v2_raw), dict(n=2), "kernels"),
+        "reduce_angc_ylm": (_wrap(c05.h_angc_ylm), dict(nrad=2, nw=(2, 3), nlm=4, nalpha=2, stride=3, offset=1), "dft"),
+        "contract_rad_orb": (_wrap(c05.h_rad_orb), dict(nalpha=2, stride=3, offset=1), "dft"),
+        "multiply_atc_integrals": (_wrap(c05.h_atc_integrals), dict(vk=False), "dft"),
+        "multiply_atc_integrals_vk": (_wrap(c05.h_atc_integrals), dict(vk=True), "dft"),
+        "fft_copies_r2c_inplace": (_wrap(c20.h_fft), dict(dims=(2, 3), nt=2, fwd=True, r2c=True, inplace=True, bf=False), "fft"),
+        "fft_copies_c2r_inplace": (_wrap(c20.h_fft), dict(dims=(2, 3), nt=2, fwd=False, r2c=True, inplace=True, bf=True), "fft"),
+        "fft_copies_c2c": (_wrap(c20.h_fft), dict(dims=(3,), nt=2, fwd=True, r2c=False, inplace=False, bf=False), "fft"),
+    }
+
+
+_TABLE = None
+
+
+def table():
+    global _TABLE
+    if _TABLE is None:
+        _TABLE = _make()
+    return _TABLE
 
 
 def tasks(tier):
-    return []
+    out = []
+    for name, (fn, cfg, mods) in table().items():
+        out.append(Task("races/%s" % name, fn, cfg, mods=mods, max_paths=64))
+    return out
+
+
+def prepare(tier):
+    from . import c02, c05, c11, c20
+    for m in (c02, c05, c11, c20):
+        if hasattr(m, "prepare"):
+            m.prepare(tier)
 
 
 def replay(task, rec):
-    return dict(confirmed=False, detail="n/a")
+    """a footprint conflict is a statement about the IR, not about one run: the counterexample is re-derived from a second,
+    independent interpretation with twice as many virtual threads and, where the obligation is a value identity, replayed on
+    the compiled library like in the owning property"""
+    name = rec["name"]
+    obl = name[len(task.name) + 1:]
+    if obl.startswith("no_data_race/") or obl.startswith("every_iteration") or obl.startswith("parallel_regions") or obl.startswith("work_shared"):
+        return replay_race(task, rec, obl)
+    from .. import harness
+    if task.name.startswith("races/fft"):
+        from . import c20
+        return harness.replay_obligation(task.fn, c20._Real(), task.cfg, rec["model_float"], obl)
+    return common.generic_replay(task, rec)
+
+
+def replay_race(task, rec, obl):
+    """confirmation on the real, compiled code under valgrind's helgrind (see vf/vgreplay.confirm_race); structural facts about
+    the analysis itself (coverage of iterations by virtual threads) have no replay"""
+    if not obl.startswith("no_data_race/"):
+        return dict(confirmed=False, detail="analysis coverage fact: " + str(rec.get("detail")))
+    from .. import vgreplay
+    from ..run import _TIER
+    rp = vgreplay.confirm_race("C10", _TIER, task.name, rec.get("model_float") or {})
+    rp["footprint_conflict"] = rec.get("detail")
+    return rp
